@@ -721,7 +721,7 @@ class C04Engine(Engine):
             tr = trunc_cache[j]
             if tr is None:
                 continue
-            tol = 1e-12 if cfg["linear_solver"] == "direct" else max(1e-7, 100 * iterative_tol(cfg))
+            tol = 1e-11  # both runs execute the same operations from the same RNG state: iterative back-ends included
             fs = float(np.max(np.abs(tr["flux"]))) + 1e-300
             ds = abs(tr["distance"]) + 1e-300
             where = "failure@iter0" if j == 0 else "failure@iter>=1"
